@@ -3,6 +3,7 @@ import random
 
 from ..coregen.gen import generate_cond
 from ..coregen.prop import CoreProp
+from .c10_lib import LibScen, gen_lib_config
 from ..kernel import h64
 
 
@@ -13,14 +14,47 @@ class Prop(CoreProp):
     tiers = {"quick": {"runs": 400, "selftest_runs": 4}, "thorough": {"runs": 8000, "selftest_runs": 32}}
     feat = {'p_fwd': 0.5, 'p_nested': 0.3, 'n_before': (0, 2), 'rdep': True, 'n_conflicts': (0, 2), 'prio': True}
     rule = 'one run = one generated program (1-3 modules, 1-5 transactions, 0-6 methods, call depth <= 3, nested bodies, If/Switch/FSM around bodies and calls, enable_call, validate_arguments, aliases, nonexclusive methods, Forwarder-style readiness on the run of bodies scheduled before) under one arbiter and one internal set order, driven for 60-160 cycles by a seeded phase plan (random / all-on contention / single-method stall / flapping / exhaustive valuation sweep when <= 10 one-bit inputs); distinct = distinct (program, arbiter, set of transactions running in a cycle); non-trivial = at least one transaction ran'
-    expected_cov = ['concurrent_transactions']
+    expected_cov = ['concurrent_transactions', 'design_with_forwarder_style_readiness', 'design_with_nested_body', 'design_with_ready_dependent_schedule_before', 'libcomp_design_elaborated', 'libcomp_transfer', 'libcomp_with_Forwarder', 'libcomp_with_Pipe', 'libcomp_with_Connect']
 
     def gen_config(self, rng, tier, idx):
         cfg = super().gen_config(rng, tier, idx)
+        if idx % 8 == 6:  # compositions of library connectors, wired the documented way
+            return gen_lib_config(rng)
         if idx % 4 == 3:  # the statement names condition() blocks explicitly
             prng = random.Random(h64(self.master_seed, self.ID, "cond-program", idx))
             cfg["prog"] = generate_cond(prng)
         return cfg
+
+    def make(self, cfg):
+        if cfg.get("kind") == "libcomp":
+            return LibScen(cfg)
+        return super().make(cfg)
+
+    def cfg_signature(self, cfg):
+        if cfg.get("kind") == "libcomp":
+            return [cfg["chains"], cfg["join"]]
+        return super().cfg_signature(cfg)
+
+    def features(self, cfg, viol):
+        if cfg.get("kind") == "libcomp":
+            return {"libcomp": True}
+        return super().features(cfg, viol)
+
+    def shrink_cfg(self, cfg):
+        if cfg.get("kind") == "libcomp":
+            for k in range(len(cfg["chains"])):
+                if len(cfg["chains"]) > 1:
+                    c = dict(cfg)
+                    c["chains"] = cfg["chains"][:k] + cfg["chains"][k + 1:]
+                    yield c
+                for j in range(len(cfg["chains"][k])):
+                    if len(cfg["chains"][k]) > 1:
+                        c = dict(cfg)
+                        c["chains"] = [list(ch) for ch in cfg["chains"]]
+                        del c["chains"][k][j]
+                        yield c
+            return
+        yield from super().shrink_cfg(cfg)
 
     def violation_class(self, feats):
         return {k: feats.get(k) for k in ("kind", "cond_in_conditionally_called_method", "cond_branch_reaches_validate")}
